@@ -104,6 +104,31 @@ def replay(pid: str, path: str) -> int:
         ckk = _Ck()
         c16.page_boundaries(ckk, pid=pid)
         res = ckk.fails[0] if ckk.fails else None
+    elif kind in ('layout', 'import-plan'):
+        # differential cases against the extracted model: re-run the differential part of the check on the working tree
+        import c02
+
+        class _Ck2:
+            def __init__(self, pid):
+                import random
+                self.pid, self.cov, self.constants, self.fails, self.obls = pid, {}, None, [], []
+                self.rng = random.Random(doc.get('seed', 0))
+
+            def count(self, *a, **k):
+                pass
+
+            def sample(self, *a, **k):
+                pass
+
+            def fail(self, what, case, key=None):
+                self.fails.append(what)
+
+            def obligation(self, name, ok, detail='', kind=''):
+                if not ok:
+                    self.obls.append(f'{name}: {detail}')
+        ck2 = _Ck2(pid)
+        (c02._layout if kind == 'layout' else c02._import_plan)(ck2, doc.get('tier', 'quick'))
+        res = (ck2.fails + ck2.obls or [None])[0]
     elif kind == 'damage':
         import c12
         r = c12.sweep_container((case['container_seed'], case['big'], 0, 1))
